@@ -59,8 +59,8 @@ CFG = {
                   "(list_history_body_eq_model, pager_history_body_eq_model); pager_offset_clamped_body: after ANY history incl. width changes and "
                   "an Offset written before the first Draw, the executed Draw leaves 0 <= Offset <= max 0 (lines - h) for the lines laid out for "
                   "that window's width. F119i characterised from both sides: an endless Builder whose widgets make progress (height + gap >= 1) is drawn in one bounded frame "
-                  "(endless_builder_with_progress_returns: the executed Draw returns within H + Mx + 3 units of fuel with at most max 1 H children, from the "
-                  "initial scroll state), so Draw fails to return only for an endless Builder of zero-progress widgets; a cap on zero-progress iterations is not a repair (zero_heights_then_content: k empty "
+                  "(endless_builder_with_progress_returns, ..._any_state: the executed Draw returns with a bounded number of children, from the initial state and from every "
+                  "state in which no upward scroll is due), so Draw fails to return only for an endless Builder of zero-progress widgets; a cap on zero-progress iterations is not a repair (zero_heights_then_content: k empty "
                   "widgets followed by a visible one are drawn with the visible one at row 0, for every k).",
     "level_note": "Proved for all inputs/histories: simple_list_safe, simple_list_selected_visible, simple_list_rows_in_order, "
                   "pager_complete, pager_offset_clamped, pager_scroll_history, pager_draw_rows, pager_row_keeps_characters "
